@@ -225,6 +225,23 @@ def judge_case(ctx, res, pid="C08"):
                 if c not in gone:
                     ctx.violation(f"removed-crate-still-listed {fam}", f"{schema}: remove_crate returned but crates() still lists the crate", wit)
                     break
+                # crates that went away with it must lie below it; a crate elsewhere in the forest that vanishes takes memberships
+                # with it that nobody removed
+                below = set()
+                frontier = [c]
+                while frontier:
+                    x = frontier.pop()
+                    for y, py in parent.items():
+                        if py == x and y not in below:
+                            below.add(y)
+                            frontier.append(y)
+                unrelated = sorted(g for g in gone if g != c and g not in below)
+                lost = sorted((a, b) for a, b in expM if a in unrelated)
+                if unrelated and lost:
+                    ctx.violation(f"membership-lost-with-unrelated-crate {fam} after-remove_crate",
+                                  f"{schema}: remove_crate({c}) also made crate(s) {unrelated} vanish, which are not below it, and with them the "
+                                  f"memberships {lost[:6]} that nobody removed", wit)
+                    break
                 live_c -= gone
                 expM = {(a, b) for a, b in expM if a not in gone}
                 for g in gone:
